@@ -57,6 +57,8 @@ impl StateMachine<'_> {
         // (it connects the plus_file and minus_file),
         // and to call fn handle_generic_diff_header_header_line directly.
         if self.config.color_only {
+            // Lines of the previous hunk may just have been painted into the output buffer.
+            self.painter.emit()?;
             write_generic_diff_header_header_line(
                 &self.line,
                 &self.raw_line,
